@@ -243,7 +243,7 @@ func genWire(r *Rand, g GenCfg) Plan {
 		for i := 0; i < 24; i++ {
 			add(XStep{Op: "mutate", Tok: r.Intn(2), Codec: Pick(r, []string{"cbor", "cbor", "json"}), Kind: Pick(r, []string{"subst", "insert", "append"}), At: r.Intn(4096), Val: r.Intn(256)})
 		}
-		for _, k := range []string{"empty", "trunc", "trunc", "other_key", "iss_swapped", "foreign_header", "foreign_header", "unknown_header", "no_header", "two_payloads", "splice", "hostile_header", "hostile_header", "zero_hash", "zero_hash", "did_url", "did_url", "did_url"} {
+		for _, k := range []string{"empty", "trunc", "trunc", "other_key", "iss_swapped", "foreign_header", "foreign_header", "unknown_header", "no_header", "two_payloads", "splice", "hostile_header", "hostile_header", "zero_hash", "zero_hash", "did_url", "did_url", "did_url", "foreign_alt_sig", "foreign_alt_sig", "foreign_alt_sig"} {
 			add(XStep{Op: "sig", Tok: r.Intn(2), Kind: k, At: r.Intn(600), Val: r.Intn(256)})
 		}
 		if g.Index%4 == 2 {
@@ -362,7 +362,7 @@ func genWire(r *Rand, g GenCfg) Plan {
 				}
 			}
 			for _, f := range []string{"nbf", "exp", "iat", "args", "pol", "meta"} {
-				for v := 0; v < 32; v++ {
+				for v := 0; v < 48; v++ {
 					if all && v > 1 {
 						break
 					}
@@ -370,7 +370,7 @@ func genWire(r *Rand, g GenCfg) Plan {
 				}
 				if f == "pol" && !all {
 					// integers inside selectors (9 numbers x 6 places)
-					for v := 32; v < 32+54; v++ {
+					for v := 48; v < 48+54; v++ {
 						add(XStep{Op: "byz", Tok: t, Field: f, How: "range", Val: v})
 					}
 				}
